@@ -144,7 +144,7 @@ def end_to_end(ck, counts, rows, row_syms, w, align, blackis1, origin, via_strea
         out, err = decode_stream(data, w, len(rows), align, blackis1, extra)
     else:
         out, err = g4run.decode(data, w, align, blackis1, omit_false=True, extra=extra)
-    case = {"kind": "image", "w": w, "rows": rows, "syms": row_syms, "align": align, "blackis1": blackis1,
+    case = {"kind": "image", "w": w, "rows": rows, "syms": row_syms if len(rows) <= 500 else None, "align": align, "blackis1": blackis1,
             "via_stream": via_stream, "origin": origin, "extra_params": extra, "eofb": eofb}
     shown = "align=%s, BlackIs1=%s, further parameters %r%s" % (align, blackis1, extra, "" if eofb else ", no EOFB")
     if err is not None:
@@ -349,6 +349,36 @@ def files_replay(ck, counts, stats, rng):
             done += 1
     stats["image_xobjects_in_files"] = done
     ck.replayed += done
+
+
+def tall_images(ck, counts, stats, rng):
+    """the height dimension: narrow images with thousands of rows (the decoder collects its output row by row, whatever
+    it does every so many rows must not lose any), through ccittfaxdecode and through PDFStream.get_data()"""
+    heights = [4097, 4500] if ck.tier == "quick" else [4096, 4097, 4500, 9000, 12289]
+    done = []
+    for i, h in enumerate(heights):
+        w = rng.randint(8, 13)
+        row = [rng.randint(0, 1) for _ in range(w)]
+        rows = []
+        for y in range(h):                       # rows resemble their predecessor, every one carries its number's low bits
+            if rng.random() < 0.3:
+                row = list(row)
+                row[rng.randrange(w)] ^= 1
+            r = list(row)
+            for b in range(min(w, 4)):
+                r[b] = (y >> b) & 1
+            rows.append(r)
+        strat = ("canon", "rand", "honly")[i % 3]
+        syms = t6.encode(rows, w, t6.STRATEGIES[strat](rng))
+        if t6.decode_syms(syms, w) != [t6.changes(r) for r in rows]:
+            raise MachineryError("T.6 writer self-check failed on a tall image")
+        align, bi = COMBOS[i % 4]
+        for via in (False, True):
+            end_to_end(ck, counts, rows, syms, w, align, bi, "tall image %dx%d %s" % (w, h, strat), via_stream=via)
+            ck.case(h, ("tall", w, h, via))
+        done.append([w, h, strat])
+    stats["tall_images"] = done
+    ck.replayed += 2 * len(done)
 
 
 def pc_replay(ck, run, res, emit, counts, stats):
@@ -759,6 +789,7 @@ def run(ck):
         f_pc = [ex.submit(pc_tlc, ck, r, max(2, ncpu // 4)) for r in pcs]
         table_probe(ck, counts, stats, rng)
         images_replay(ck, counts, stats, rng)           # real code only; runs while TLC works
+        tall_images(ck, counts, stats, rng)
         probes(ck, counts, stats)
         traces, events = record_b(ck, counts, stats)
         f_tr = ex.submit(fast_validate, ck, traces)
